@@ -49,6 +49,19 @@ class Methods:
             if name == 'count' and all(not is_sym(x) for x in obj) and not is_sym(args[0]):
                 return obj.count(args[0])
             raise Unsupported('tuple.' + name)
+        if isinstance(obj, LazySel):
+            if name == 'index' and all(isinstance(r, tuple) for r in obj.seq) and isinstance(args[0], int):
+                vals = []
+                for r in obj.seq:
+                    vals.append(r.index(args[0]) if args[0] in r else -1)
+                e = z3.IntVal(vals[-1])
+                for k in reversed(range(len(vals) - 1)):
+                    e = z3.If(obj.idx == k, vals[k], e)
+                res = ctx.fresh_int('ix')
+                ctx.add(res == e)
+                ctx.require(res >= 0, ValueError, 'tuple.index: value not in tuple')
+                return res
+            raise Unsupported('method %s on a symbolically selected row' % name)
         if isinstance(obj, LongStr):
             return self.long_method(obj, name, args, kwargs)
         if isinstance(obj, (str, FixedStr)):
